@@ -164,3 +164,19 @@ func specV1JumpRow(opWidth []int, op byte) bool {
 		len(opv1.OpcodeOperands[op]) == 1 && opv1.OpcodeOperands[op][0] == 2 &&
 		len(ugo.OpcodeOperands[op]) == 1 && ugo.OpcodeOperands[op][0] == 4
 }
+
+// specV1Target: the 2-byte big-endian target stored at offset at of a version
+// 1 stream (every operand of a jump-class instruction is one).
+func specV1Target(ins []byte, at int) int {
+	return int(ins[at+1]) | int(ins[at])<<8
+}
+
+// specV1Relocated: v is what a version 1 target t becomes: the new offset of
+// the instruction that starts at t (or of the end of the stream), and t itself
+// when t is not an instruction boundary (malformed input is left as it is).
+func specV1Relocated(newPos []int, t, v int) bool {
+	if t < len(newPos) && newPos[t] >= 0 {
+		return v == newPos[t]
+	}
+	return v == t
+}
